@@ -74,7 +74,7 @@ fn parse_props(text: String) -> String {
             let _ = tx.send(r.unwrap_or_else(|_| "\"panicked\":true".to_string()));
         })
         .unwrap();
-    match rx.recv_timeout(Duration::from_secs(5)) {
+    match rx.recv_timeout(Duration::from_secs(3)) {
         Ok(body) => format!("{{\"text\":{},\"hang\":false,{}}}", json_str(&text), body),
         Err(_) => format!("{{\"text\":{},\"hang\":true}}", json_str(&text)),
     }
@@ -118,26 +118,26 @@ fn main() {
                 std::io::stdin().read_to_string(&mut s).unwrap();
                 inputs = s.lines().map(|l| l.trim().to_string()).filter(|l| !l.is_empty()).collect();
             }
-            let mut first = true;
-            print!("[");
+            // one JSON object per line, flushed; after a hang the process exits (the stuck
+            // thread cannot be stopped) and the caller resumes with the remaining inputs
+            use std::io::Write;
+            let out = std::io::stdout();
             for h in inputs {
                 let bytes = unhex(&h);
                 let text = match String::from_utf8(bytes) {
                     Ok(t) => t,
-                    Err(_) => continue,
+                    Err(_) => {
+                        println!("{{\"invalid_utf8\":true}}");
+                        continue;
+                    }
                 };
-                if !first {
-                    print!(",");
-                }
-                first = false;
                 let r = parse_props(text);
-                print!("{}", r);
+                println!("{}", r);
+                out.lock().flush().ok();
                 if r.contains("\"hang\":true") {
-                    println!("]");
                     std::process::exit(0);
                 }
             }
-            println!("]");
         }
         Some("completion-dump") => println!("{}", completion_dump()),
         _ => {
